@@ -75,6 +75,8 @@ pub struct FaultCtl {
   armed: Cell<bool>,
   /// While set, `generate` hands out JWKs without a `kid` member (the trait does not promise one).
   strip_kid: Cell<bool>,
+  /// Injected faults report "not found" (`KeyNotFound` / `KeyIdNotFound`) instead of `Unavailable`.
+  not_found_faults: Cell<bool>,
   next: Cell<usize>,
   log: RefCell<Vec<CallRec>>,
 }
@@ -85,6 +87,7 @@ impl FaultCtl {
       plan,
       armed: Cell::new(false),
       strip_kid: Cell::new(false),
+      not_found_faults: Cell::new(false),
       next: Cell::new(0),
       log: RefCell::new(Vec::new()),
     })
@@ -97,6 +100,9 @@ impl FaultCtl {
   }
   pub fn set_strip_kid(&self, on: bool) {
     self.strip_kid.set(on);
+  }
+  pub fn set_not_found_faults(&self, on: bool) {
+    self.not_found_faults.set(on);
   }
   /// Number of storage calls made while armed so far.
   pub fn calls(&self) -> usize {
@@ -134,12 +140,14 @@ fn strip_kid(jwk: &Jwk) -> Jwk {
   serde_json::from_value(v).expect("jwk without kid")
 }
 
-fn key_fault() -> KeyStorageError {
-  KeyStorageError::new(KeyStorageErrorKind::Unavailable).with_custom_message(INJECTED)
+fn key_fault(not_found: bool) -> KeyStorageError {
+  let kind = if not_found { KeyStorageErrorKind::KeyNotFound } else { KeyStorageErrorKind::Unavailable };
+  KeyStorageError::new(kind).with_custom_message(INJECTED)
 }
 
-fn key_id_fault() -> KeyIdStorageError {
-  KeyIdStorageError::new(KeyIdStorageErrorKind::Unavailable).with_custom_message(INJECTED)
+fn key_id_fault(not_found: bool) -> KeyIdStorageError {
+  let kind = if not_found { KeyIdStorageErrorKind::KeyIdNotFound } else { KeyIdStorageErrorKind::Unavailable };
+  KeyIdStorageError::new(kind).with_custom_message(INJECTED)
 }
 
 /// Fault-injecting `JwkStorage`.
@@ -171,7 +179,7 @@ impl<S: JwkStorage> JwkStorage for FaultyJwkStorage<S> {
   async fn generate(&self, key_type: KeyType, alg: JwsAlgorithm) -> KeyStorageResult<JwkGenOutput> {
     let slot = self.ctl.enter(CallKind::Generate);
     if matches!(slot, Some((_, true))) {
-      return Err(key_fault());
+      return Err(key_fault(self.ctl.not_found_faults.get()));
     }
     let mut r = self.inner.generate(key_type, alg).await;
     if let Ok(out) = &mut r {
@@ -187,7 +195,7 @@ impl<S: JwkStorage> JwkStorage for FaultyJwkStorage<S> {
   async fn insert(&self, jwk: Jwk) -> KeyStorageResult<KeyId> {
     let slot = self.ctl.enter(CallKind::Insert);
     if matches!(slot, Some((_, true))) {
-      return Err(key_fault());
+      return Err(key_fault(self.ctl.not_found_faults.get()));
     }
     let r = self.inner.insert(jwk).await;
     if let Ok(id) = &r {
@@ -200,7 +208,7 @@ impl<S: JwkStorage> JwkStorage for FaultyJwkStorage<S> {
   async fn sign(&self, key_id: &KeyId, data: &[u8], public_key: &Jwk) -> KeyStorageResult<Vec<u8>> {
     let slot = self.ctl.enter(CallKind::Sign);
     if matches!(slot, Some((_, true))) {
-      return Err(key_fault());
+      return Err(key_fault(self.ctl.not_found_faults.get()));
     }
     let r = self.inner.sign(key_id, data, public_key).await;
     self.ctl.leave(slot, r.is_ok());
@@ -210,7 +218,7 @@ impl<S: JwkStorage> JwkStorage for FaultyJwkStorage<S> {
   async fn delete(&self, key_id: &KeyId) -> KeyStorageResult<()> {
     let slot = self.ctl.enter(CallKind::Delete);
     if matches!(slot, Some((_, true))) {
-      return Err(key_fault());
+      return Err(key_fault(self.ctl.not_found_faults.get()));
     }
     let r = self.inner.delete(key_id).await;
     self.ctl.leave(slot, r.is_ok());
@@ -220,7 +228,7 @@ impl<S: JwkStorage> JwkStorage for FaultyJwkStorage<S> {
   async fn exists(&self, key_id: &KeyId) -> KeyStorageResult<bool> {
     let slot = self.ctl.enter(CallKind::Exists);
     if matches!(slot, Some((_, true))) {
-      return Err(key_fault());
+      return Err(key_fault(self.ctl.not_found_faults.get()));
     }
     let r = self.inner.exists(key_id).await;
     self.ctl.leave(slot, r.is_ok());
@@ -264,7 +272,7 @@ impl<S: KeyIdStorage> KeyIdStorage for FaultyKeyIdStorage<S> {
     self.remember(&method_digest);
     let slot = self.ctl.enter(CallKind::InsertKeyId);
     if matches!(slot, Some((_, true))) {
-      return Err(key_id_fault());
+      return Err(key_id_fault(self.ctl.not_found_faults.get()));
     }
     let r = self.inner.insert_key_id(method_digest, key_id).await;
     self.ctl.leave(slot, r.is_ok());
@@ -275,7 +283,7 @@ impl<S: KeyIdStorage> KeyIdStorage for FaultyKeyIdStorage<S> {
     self.remember(method_digest);
     let slot = self.ctl.enter(CallKind::GetKeyId);
     if matches!(slot, Some((_, true))) {
-      return Err(key_id_fault());
+      return Err(key_id_fault(self.ctl.not_found_faults.get()));
     }
     let r = self.inner.get_key_id(method_digest).await;
     self.ctl.leave(slot, r.is_ok());
@@ -286,7 +294,7 @@ impl<S: KeyIdStorage> KeyIdStorage for FaultyKeyIdStorage<S> {
     self.remember(method_digest);
     let slot = self.ctl.enter(CallKind::DeleteKeyId);
     if matches!(slot, Some((_, true))) {
-      return Err(key_id_fault());
+      return Err(key_id_fault(self.ctl.not_found_faults.get()));
     }
     let r = self.inner.delete_key_id(method_digest).await;
     self.ctl.leave(slot, r.is_ok());
